@@ -431,6 +431,26 @@ def r19_9_fast_prefix(repo: Repo, rep: Report):
         rep.check("R19.9", ok, m, s, f"{src(s)} under {sorted(gs)}", "only a concrete first chunk may serve as the fast prefix")
     fc = [src(v) for s in body_walk(init) if isinstance(s, ast.Assign) and src(s.targets[0]) == "first_chunk" for v in [s.value]]
     rep.check("R19.9", fc == ["code.chunks[0]"], m, init, f"first_chunk = {fc}", "the prefix must start at offset 0 of the code")
+    # the jump-destination set of a contract is computed from that contract's own code
+    _, vj = repo.fn("contract.Contract.valid_jumpdests")
+    from hsa.paths import summarise
+
+    ps = summarise(vj) or []
+    ok = bool(ps)
+    shapes = []
+    for p_ in ps:
+        stores = [e[1] for e in p_.trace if e[0] == "e" and e[1].startswith("self._jumpdests = ")]
+        val = re.sub(r"@stale\d*\((.*)\)$", r"\1", p_.value)
+        shapes.append((p_.conds, stores, val))
+        if "self._jumpdests is None" in p_.conds:
+            ok = ok and stores == ["self._jumpdests = self.__get_jumpdests()"] and val in ("self._jumpdests", "self.__get_jumpdests()")
+        else:
+            ok = ok and not stores and val == "self._jumpdests"
+        ok = ok and p_.kind == "return" and not any("_by_" in c or "cache" in c.lower() for c in p_.conds)
+    rep.check("R19.9", ok and len(ps) == 2, m, vj, f"valid_jumpdests paths: {[(list(c), s_, v) for c, s_, v in shapes]}"[:300], "the set must come from scanning this contract (memoised on the object only): a result shared through a key that is not the whole code (e.g. the concrete prefix) gives another contract's jump destinations")
+    from hsa.rules.c20 import r20_9_module_containers_and_config
+
+    r20_9_module_containers_and_config(repo, rep)
     # the program counter written by a taken jump (shared with C01: R01.3 checks the operands of advance(pc=...))
     from hsa.rules.c01 import r01_2_3_arm_semantics
 
